@@ -21,6 +21,10 @@
              clause 15 the client's perturb/restore loop does not restore the coefficients / gradient
                        vector length differs from the number of tuned parameters
      mode 3: mode 0 with clauses 11-13 evaluated by the harness (exhaustive sweep over target subsets)
+     mode 4: clause 17 a pointer yielded by the iterator of set j does not point into set j, or the value behind
+                       it is not entry <index> of that set's vector (iterators of other sets being alive)
+             clause 18 the cells written through the pointers of set j are not exactly the cells its iterator reached
+     mode 5: clause 19 a concurrent worker saw a pointer outside its private set / its set changed
      mode 2: clause 16 EngineCoeffs() is not the shipped integer coefficient set (memory order)        *)
 From Coq Require Import ZArith List Bool.
 From Chess3 Require Import Model.Types Model.BoardDef Gen.CoeffShape.
@@ -90,6 +94,48 @@ Fixpoint list_eqb (a b : list Z) : bool :=
   | _, _ => false
   end.
 
+(* mode 4: records (j, index, set of the pointer, position, value-ok) *)
+Fixpoint live_recs_ok (r : list Z) : bool :=
+  match r with
+  | [] => true
+  | j :: _ :: k :: _ :: ok :: rest => (j =? k) && (ok =? 1) && live_recs_ok rest
+  | _ => false
+  end.
+
+(* the positions reached through iterator j, as a bit set *)
+Fixpoint live_mask (j : Z) (r : list Z) (acc : N) : N :=
+  match r with
+  | jj :: _ :: _ :: p :: _ :: rest => live_mask j rest (if jj =? j then N.lor acc (N.shiftl 1 (Z.to_N p)) else acc)
+  | _ => acc
+  end.
+
+Fixpoint increasing (prev : Z) (l : list Z) : bool :=
+  match l with [] => true | x :: r => (prev <? x) && increasing x r end.
+
+(* per set: the written cells are exactly the cells reached through the iterator of that set *)
+Fixpoint live_dumps_ok (recs dumps : list Z) (j : Z) (nsets : nat) : bool :=
+  match nsets with
+  | O => match dumps with [] => true | _ => false end
+  | S n =>
+      match dumps with
+      | cnt :: d =>
+          let cells := firstn (Z.to_nat cnt) d in
+          (Z.of_nat (length cells) =? cnt) && increasing (-1) cells &&
+          N.eqb (fold_left (fun acc p => N.lor acc (N.shiftl 1 (Z.to_N p))) cells 0%N) (live_mask j recs 0%N) &&
+          live_dumps_ok recs (skipn (Z.to_nat cnt) d) (j + 1) n
+      | [] => false
+      end
+  end.
+
+Fixpoint workers_ok (out : list Z) (k : nat) : bool :=
+  match k with
+  | O => match out with [] => true | _ => false end
+  | S n => match out with
+           | a :: b :: _ :: rest => (a =? 1) && (b =? 1) && workers_ok rest n
+           | _ => false
+           end
+  end.
+
 Definition judge_c19vec (l : list Z) : list Z :=
   match l with
   | mode :: k :: nt :: rest =>
@@ -132,6 +178,18 @@ Definition judge_c19vec (l : list Z) : list Z :=
         end
       else if mode =? 2 then
         if list_eqb out engine_flat then [1] else [0; 16]
+      else if mode =? 4 then
+        match out with
+        | nrec :: o1 =>
+            let recs := firstn (5 * Z.to_nat nrec) o1 in
+            let dumps := skipn (5 * Z.to_nat nrec) o1 in
+            let nsets := S (length (filter (fun x => x =? 63) (firstn (Z.to_nat nt) rest))) in
+            if negb (live_recs_ok recs) then [0; 17] else
+            if negb (live_dumps_ok recs dumps 0 nsets) then [0; 18] else [1]
+        | [] => [0; 1]
+        end
+      else if mode =? 5 then
+        if workers_ok out (Z.to_nat k) then [1] else [0; 19]
       else if mode =? 3 then
         match out with
         | n :: rd :: tp :: wr :: _ =>
@@ -139,5 +197,64 @@ Definition judge_c19vec (l : list Z) : list Z :=
         | _ => [0; 1]
         end
       else [1]
+  | _ => [0; 1]
+  end.
+
+(* ------------------------------------------------------------------------------------------ *)
+(* judge_c19fresh: input [workers window npos] ++ npos board-in; output npos ints ++ (workers+1) blocks
+   [ndiff] ++ npos float bit patterns (harness/streams/c19fresh.go)
+     clause 21  a goroutine of the first concurrent use of the package (or the sequential call after it) got a
+                coefficient set that differs from the shipped one
+     clause 22  its EngineRep.Eval is outside the envelope of the integer evaluation
+     clause 1   malformed observation / the child process failed *)
+Fixpoint decode_boards (n : nat) (l : list Z) : option (list board * list Z) :=
+  match n with
+  | O => Some ([], l)
+  | S k => match decode_board l with
+           | Some (b, rest) => match decode_boards k rest with
+                               | Some (bs, r) => Some (b :: bs, r)
+                               | None => None
+                               end
+           | None => None
+           end
+  end.
+
+Fixpoint fresh_block_ok (bs : list board) (ints fl : list Z) : bool :=
+  match bs, ints, fl with
+  | [], [], [] => true
+  | b :: bs', i :: ints', f :: fl' =>
+      match dyadic_of_bits f with
+      | Some d =>
+          (negb ((0 <=? fifty b) && (fifty b <=? 200)) ||
+           dy_close d (match stm b with White => i | Black => - i end) 9 4) && fresh_block_ok bs' ints' fl'
+      | None => false
+      end
+  | _, _, _ => false
+  end.
+
+Fixpoint fresh_blocks (n : nat) (np : nat) (bs : list board) (ints out : list Z) : list Z :=
+  match n with
+  | O => match out with [] => [1] | _ => [0; 1] end
+  | S k =>
+      match out with
+      | nd :: o1 =>
+          if negb (nd =? 0) then [0; 21] else
+          if negb (fresh_block_ok bs ints (firstn np o1)) then [0; 22] else
+          fresh_blocks k np bs ints (skipn np o1)
+      | [] => [0; 1]
+      end
+  end.
+
+Definition judge_c19fresh (l : list Z) : list Z :=
+  match l with
+  | w :: _ :: np :: rest =>
+      match decode_boards (Z.to_nat np) rest with
+      | Some (bs, out) =>
+          let n := Z.to_nat np in
+          if (Z.of_nat (length out) =? np + (w + 1) * (np + 1)) && (0 <? w) then
+            fresh_blocks (S (Z.to_nat w)) n bs (firstn n out) (skipn n out)
+          else [0; 1]
+      | None => [0; 1]
+      end
   | _ => [0; 1]
   end.
